@@ -59,5 +59,13 @@ def regInfix (r : Regs) (n : Name) (c : InfixCfg) : Regs := { r with inf := (n, 
 
 def empty : Regs := ⟨[], [], [], []⟩
 
+/-- Drop the entries a newer registration of the same name hides (the driver does this after every registration so that
+long histories stay short; look-ups are unaffected: `EE.Props.C08.compact_lookup`). -/
+def dropOlder {β : Type} : List (Name × β) → List (Name × β)
+  | [] => []
+  | x :: rest => x :: rest.filter (fun y => y.1 != x.1)
+
+def compact (r : Regs) : Regs := ⟨dropOlder r.pre, dropOlder r.inf, dropOlder r.post, dropOlder r.fns⟩
+
 end Regs
 end EE
